@@ -1247,13 +1247,13 @@ def run(repo, chk, tier):
     notes = []
 
     def _viol(rule, where, construct, msg, **kw):
-        if rule in ("P1", "P2", "P3", "P4", "E1", "B1") and where in bins_decided:
+        if rule in ("P1", "P2", "P3", "P4", "E1", "E2", "B1") and where in bins_decided:
             notes.append((rule, where, construct))
             return
         real_violation(rule, where, construct, msg, **kw)
 
     chk.violation = _viol
-    chk.require_count = lambda rule, n: None if (rule in ("P1", "P2", "P3", "P4", "E1", "B1") and len(bins_decided) >= 3) else real_require(rule, n)
+    chk.require_count = lambda rule, n: None if (rule in ("P1", "P2", "P3", "P4", "E1", "E2", "B1") and len(bins_decided) >= 3) else real_require(rule, n)
     try:
         check_partition(repo, chk)
     except AnalysisError as e:
